@@ -36,6 +36,10 @@ Definition chk_parse (c : list N * list (string * option string) * obs) : bool :
 Definition chk_lex (c : list N * list token) : bool :=
   let '(codes, toks) := c in tokens_eqb (lexN codes) toks.
 
+(* lexer and parser observation of one string in one case *)
+Definition chk_lex_parse (c : list N * list (string * option string) * list token * obs) : bool :=
+  let '(codes, tbl, toks, o) := c in chk_lex (codes, toks) && chk_parse (codes, tbl, o).
+
 (* str(tree) of a tree the real parser returned, lexed by the model lexer, equals the model's print;
    tshow table: time value id -> codes of str(astropy Time) *)
 Definition tshow_of (tbl : list (string * string)) (v : string) : string :=
